@@ -79,7 +79,10 @@ fn main() {
     let mode = args.get(1).and_then(|a| a.to_str().map(|s| s.to_owned())).unwrap_or_default();
     if let Some(ms) = mode.strip_prefix("sleep:") {
         std::thread::sleep(std::time::Duration::from_millis(ms.parse().unwrap_or(0)));
-    } else if mode == "cat" {
+    } else if mode == "cat" || mode.starts_with("slowcat:") {
+        if let Some(ms) = mode.strip_prefix("slowcat:") {
+            std::thread::sleep(std::time::Duration::from_millis(ms.parse().unwrap_or(0)));
+        }
         let mut buf = [0u8; 4096];
         let mut i = std::io::stdin();
         let mut o = std::io::stdout();
@@ -101,6 +104,37 @@ fn main() {
         std::thread::sleep(std::time::Duration::from_millis(before));
         unsafe { libc::close(0) };
         std::thread::sleep(std::time::Duration::from_millis(after));
+    } else if let Some(path) = mode.strip_prefix("closeout_count:") {
+        // close both outputs at once, then consume all of stdin and record how much arrived
+        unsafe {
+            libc::close(1);
+            libc::close(2);
+        }
+        let mut buf = [0u8; 4096];
+        let mut total = 0usize;
+        let mut i = std::io::stdin();
+        loop {
+            match i.read(&mut buf) {
+                Ok(0) | Err(_) => break,
+                Ok(n) => total += n,
+            }
+        }
+        let _ = std::fs::write(path, format!("{}", total));
+    } else if mode == "dup512" {
+        // read 512 bytes at a time and write every block twice (output outgrows input)
+        let mut buf = [0u8; 512];
+        let mut i = std::io::stdin();
+        let mut o = std::io::stdout();
+        loop {
+            match i.read(&mut buf) {
+                Ok(0) | Err(_) => break,
+                Ok(n) => {
+                    if o.write_all(&buf[..n]).is_err() || o.write_all(&buf[..n]).is_err() {
+                        break;
+                    }
+                }
+            }
+        }
     } else if mode == "flood" {
         let buf = [b'f'; 65536];
         let mut o = std::io::stdout();
